@@ -356,7 +356,7 @@ class Ctx:
     # -- proof obligations ---------------------------------------------------------------------
     def proofs(self, targets=None):
         pid = self.pid
-        targets = targets or ["MudModel", "MudExec", "MudProof.Properties." + pid]
+        targets = targets or ["MudModel", "MudExec", "MudProof.Properties." + pid, "MudProof.StepThm"]
         ok, out = lake_build(targets)
         if not ok:
             self.proof["broken"].append("lake build failed: " + out[-1500:])
@@ -440,7 +440,7 @@ class Ctx:
         cov = {
             "obligations": self.proof["obligations"],
             "discharged": self.proof["discharged"],
-            "checker_cmd": "cd /verif/lean && lake build MudProof.Properties.%s && lake env lean MudProof/Audit/%s.lean"
+            "checker_cmd": "cd /verif/lean && lake build MudProof.Properties.%s MudProof.StepThm && lake env lean MudProof/Audit/%s.lean"
                            % (pid, pid) + (" && lake env leanchecker MudProof.Properties.%s" % pid if self.thorough() else ""),
             "trusted_base": [
                 "Lean 4.33.0 kernel; Mathlib v4.33.0 as installed",
